@@ -3,6 +3,8 @@ package checks
 import (
 	"fmt"
 	"math/rand"
+	"regexp"
+	"strings"
 	"time"
 
 	"github.com/nspcc-dev/dbft"
@@ -60,6 +62,40 @@ func runFifo(s Spec, epoch int64, mods ...func(*vnet.Config)) *c14Trace {
 	}
 	c.StartAll(false)
 	c.Run(nil)
+	return traceOf(c, epoch)
+}
+
+// runViewJump: one real validator among silent ones is scripted through a view jump: it asks for view 1
+// on a timeout, then M-1.. other validators' requests for view 2 arrive and it jumps from view 0 to
+// view 2, broadcasting its "change agreement" request - the one change view payload that is not made
+// by sendChangeView. k shifts the moment of the timeout a little.
+func runViewJump(epoch int64, k int) *c14Trace {
+	cfg := vnet.Config{Seed: 4711, Profile: "view-jump", N: 7, BaseHeight: 9, Heights: 1, AMEV: -1, TPB: time.Second, Epoch: epoch,
+		TsInc: 1000, MaxSteps: 1000}
+	cfg.GenesisTs = uint64(epoch) - uint64(cfg.TPB)
+	cfg.K.SlowNode, cfg.K.ResetDelayNode = -1, -1
+	cfg.Roles = []vnet.Role{vnet.Silent, vnet.Silent, vnet.Silent, vnet.Honest, vnet.Silent, vnet.Silent, vnet.Silent}
+	c := vnet.NewCluster(cfg)
+	x := c.Nodes[3]
+	x.Start()
+	h := cfg.BaseHeight + 1
+	mk := func(t dbft.MessageType, idx int, body any) *vnet.Payload {
+		return &vnet.Payload{T: t, Hgt: h, View: 0, Idx: uint16(idx), Body: body, Origin: -1}
+	}
+	for _, i := range []int{0, 1, 2, 4, 5, 6} { // everybody has been heard from
+		x.Receive(mk(dbft.RecoveryRequestType, i, &vnet.RecReq{Ts: uint64(epoch) + 1}))
+	}
+	c.Clock += int64(2*time.Second) + int64(k)*1234567
+	x.Timeout(h, 0, "scripted")
+	c.Clock += 31415926
+	for _, i := range []int{0, 1, 2, 4, 5} {
+		x.Receive(mk(dbft.ChangeViewType, i, &vnet.ChView{NewView: 2, Ts: uint64(epoch) + uint64(c.Clock)}))
+	}
+	return traceOf(c, epoch)
+}
+
+// traceOf extracts the comparable per-node streams (timer calls and payload summaries) of a finished run.
+func traceOf(c *vnet.Cluster, epoch int64) *c14Trace {
 	t := &c14Trace{perNode: make([][]string, len(c.Nodes)), c: c, aborted: c.AbortWhy}
 	off := uint64(epoch)
 	for _, e := range c.Trace {
@@ -98,6 +134,20 @@ func runFifo(s Spec, epoch int64, mods ...func(*vnet.Config)) *c14Trace {
 	}
 	t.decided = decisions(c)
 	return t
+}
+
+var tsField = regexp.MustCompile(`ts=-?\d+`)
+
+// maskTimestamps returns a copy of the trace with every timestamp field blanked.
+func maskTimestamps(t *c14Trace) *c14Trace {
+	cp := &c14Trace{perNode: make([][]string, len(t.perNode))}
+	for i, l := range t.perNode {
+		cp.perNode[i] = make([]string, len(l))
+		for j, s := range l {
+			cp.perNode[i][j] = tsField.ReplaceAllString(s, "ts=*")
+		}
+	}
+	return cp
 }
 
 func diffTraces(a, b *c14Trace) (int, string) {
@@ -182,6 +232,23 @@ func C14(r *ev.Run) {
 		if n, what := diffTraces(a, b); n >= 0 {
 			r.Violation("clock-shift-dependence", "same schedule under clocks shifted by "+time.Duration(e2-e1).String()+" behaves differently: "+what, wit(what))
 		}
+		// a fourth execution under an offset that is NOT a multiple of the timestamp increment: truncated
+		// timestamps then legitimately differ by something else than the offset, but everything that is
+		// not a timestamp - in particular every requested timer duration - must still be the same
+		d3 := d + 1 + rr.Int63n(max(inc-1, 1))
+		if inc == 1 || e1+d3 < lo || e1+d3 > hi {
+			d3 = 0
+		}
+		if d3 != 0 {
+			b3 := runFifo(s, e1+d3, mods...)
+			r.Count("executions", 1)
+			if b3.aborted == "" && !b3.cacheUsed {
+				r.Count("cases-with-off-grid-offset", 1)
+				if n, what := diffTraces(maskTimestamps(a), maskTimestamps(b3)); n >= 0 {
+					r.Violation("clock-phase-dependence", "same schedule under clocks shifted by "+time.Duration(d3).String()+" (not a multiple of the timestamp increment "+time.Duration(inc).String()+") differs in more than timestamps: "+what, wit(what))
+				}
+			}
+		}
 		if n, what := diffTraces(a, a2); n >= 0 {
 			r.Violation("wall-clock-dependence", "same schedule and same virtual epoch executed twice behaves differently: "+what, wit(what))
 		}
@@ -223,6 +290,40 @@ func C14(r *ev.Run) {
 		return
 	}
 	Parallel(len(specs), func(i int) { run(specs[i]) })
+	// the scripted view jump under shifted epochs and, with the first epoch, a second time later in wall time
+	jrng := rand.New(rand.NewSource(r.Seed + 14))
+	for i := 0; i < r.Pick(200, 5000); i++ {
+		e1 := time.Date(1971+jrng.Intn(130), time.Month(1+jrng.Intn(12)), 1+jrng.Intn(28), jrng.Intn(24), jrng.Intn(60), jrng.Intn(60), 0, time.UTC).UnixNano()
+		d := int64(1000) * (1 + jrng.Int63n(int64(1e15)))
+		if jrng.Intn(2) == 0 {
+			d = -d
+		}
+		if e1+d < time.Date(1971, 1, 1, 0, 0, 0, 0, time.UTC).UnixNano() || e1+d > time.Date(2200, 1, 1, 0, 0, 0, 0, time.UTC).UnixNano() {
+			d = -d
+		}
+		a, b, a2 := runViewJump(e1, i), runViewJump(e1+d, i), runViewJump(e1, i)
+		r.Eval(1)
+		jumped := false
+		for _, l := range a.perNode[3] {
+			if len(l) > 15 && l[:15] == "send(ChangeView" && strings.Contains(l, "rsn=1") {
+				jumped = true
+			}
+		}
+		if jumped {
+			r.Count("view-jumps-with-agreement-request", 1)
+			r.Distinct(fmt.Sprintf("view-jump/%d", i%64))
+		}
+		w := map[string]any{"scenario": "view-jump", "k": i, "epoch1": time.Unix(0, e1).UTC().String(), "epoch2": time.Unix(0, e1+d).UTC().String(), "stream": head(a.perNode[3], 12)}
+		if n, what := diffTraces(a, b); n >= 0 {
+			w["difference"] = what
+			r.Violation("clock-shift-dependence", "scripted view jump under clocks shifted by "+time.Duration(d).String()+" behaves differently: "+what, w)
+		}
+		if n, what := diffTraces(a, a2); n >= 0 {
+			w["difference"] = what
+			r.Violation("wall-clock-dependence", "scripted view jump executed twice with the same virtual epoch behaves differently: "+what, w)
+		}
+	}
+	r.Floor("view-jumps-with-agreement-request", 100)
 	r.Floor("compared-events", 50000)
 	r.Floor("cases-with-rtt-measured", 100)
 	r.Floor("cases-with-change-view", 30)
@@ -230,6 +331,7 @@ func C14(r *ev.Run) {
 	r.Floor("cases-with-sub-second-offset", 50)
 	r.Floor("cases-on-a-fresh-chain", 20)
 	r.Floor("cases-with-fixed-ledger-timestamp", 500)
+	r.Floor("cases-with-off-grid-offset", 500)
 }
 
 func head(l []string, n int) []string {
